@@ -107,6 +107,53 @@ def reader_cls(block):
     return R
 
 
+STREAM_KINDS = ['buffered-16', 'buffered-40', 'buffered-96', 'buffered-97',
+                'buffered-4096', 'buffered-8192', 'file', 'peekable']
+
+
+class Peekable(io.BytesIO):
+    """In-memory stream that also offers peek() (like BufferedReader,
+    gzip / bz2 files or HTTP responses); a short peek does NOT mean EOF."""
+    def peek(self, n=0):
+        pos = self.tell()
+        d = io.BytesIO.read(self, min(n, 7) if n else 7)
+        self.seek(pos)
+        return d
+
+
+def open_stream(data, kind):
+    if kind.startswith('buffered-'):
+        return io.BufferedReader(io.BytesIO(data),
+                                 buffer_size=int(kind.split('-')[1]))
+    if kind == 'peekable':
+        return Peekable(data)
+    if kind == 'file':
+        import tempfile
+        f = tempfile.TemporaryFile()
+        f.write(data)
+        f.flush()
+        f.seek(0)
+        return f
+    return io.BytesIO(data)
+
+
+def run_stream(data, kind):
+    s = open_stream(data, kind)
+    recs = []
+    exc = None
+    try:
+        for rec in DiffXReader(s):
+            recs.append(rec)
+    except Exception as e:
+        exc = e
+    finally:
+        try:
+            s.close()
+        except Exception:
+            pass
+    return recs, exc
+
+
 def run(data, block):
     s = LoggedStream(data)
     r = reader_cls(block)(s)
@@ -290,6 +337,9 @@ def plan(tier):
     nsc = len(scale_cases())
     for lo in range(0, nsc, 3):
         units.append(('scale', lo, min(lo + 3, nsc)))
+    for fi in range(len(stream_files())):
+        for kind in STREAM_KINDS:
+            units.append(('streams', fi, kind))
     return {
         'units': units,
         'rule': '%d base files (simple, 200-byte headers, 230-char content '
@@ -306,13 +356,19 @@ def plan(tier):
                 'Scale pass: first and later headers of 1023..65537 bytes, runs '
                 'of 1..5000 blank lines, 1500 sections, x block sizes {default, '
                 '1, 7, 64, 96, 103, 199, 1024, 4096, 65536}. '
-                'Non-trivial: some header line is at least one block long.'
+                'Stream kinds: every file (plus two whose later headers lie '
+                'just after offsets 4096 / 8192) x every padding read through '
+                'io.BufferedReader with buffer sizes 16 / 40 / 96 / 97 / 4096 / '
+                '8192, a real temporary file and a peek()-capable in-memory '
+                'stream. Non-trivial: some header line is at least one block '
+                'long.'
                 % (len(files), len(PADS), len(blocks), HAS_CHUNK_PARAM),
         'bound': 'pads 0..197 x blocks %s' % ('quick list' if tier == 'quick'
                                               else '1..199,255-257,1e6'),
         'exhaustive': True,
-        'assumptions': ['streams behave like io.BytesIO (full reads, '
-                        'relative seek)'],
+        'assumptions': ['streams deliver full reads and support relative '
+                        'seek (BytesIO, BufferedReader, files); raw streams '
+                        'with short reads are outside the statement'],
     }
 
 
@@ -344,6 +400,37 @@ def check_case(name, data, pad, block, ref):
         v.append(('records-differ', 'first difference at record %d: %r vs %r'
                   % (idx, strip_pad(recs)[idx:idx + 1], ref[idx:idx + 1])))
     return v, (padded, notes)
+
+
+def stream_files():
+    """Base files plus one whose later headers lie just after offset 8192
+    (the default buffer size of open()) and one just after 4096."""
+    from mc.alphabets import sized_text
+    out = list(base_files())
+    M = ['meta', {'path': 'f'}, None]
+    for n in (4000, 8100):
+        b, _ = spec.serialize([
+            ['preamble', sized_text(n, 'lines'), None, 0, None, None],
+            ['change', None], ['file', None], M,
+            ['diff', b'a\nb\n', None, None, None], ['file', None], M,
+            ['change', 'utf-8'], ['file', None], M], 'utf-8')
+        out.append(('after-%d' % n, b))
+    return out
+
+
+def check_stream_case(name, data, pad, kind, ref):
+    padded = pad_file(data, pad)
+    recs, exc = run_stream(padded, kind)
+    v = []
+    if exc is not None:
+        v.append(('stream-kind-raised:%s:%s' % (type(exc).__name__,
+                                                site_of(exc)),
+                  'file %s pad %d through %s: %r' % (name, pad, kind, exc)))
+    elif not typed_eq(strip_pad(recs), ref):
+        v.append(('records-depend-on-stream-kind',
+                  'file %s pad %d through %s: %d records, expected %d'
+                  % (name, pad, kind, len(recs), len(ref))))
+    return v
 
 
 def check_scale_case(label, data, block):
@@ -396,6 +483,25 @@ def run_unit(unit, tier):
         acc.sample({'scale_cases': [c[0] for c in cases],
                     'blocks': [b for b in SCALE_BLOCKS]}, 1)
         return acc
+    if unit[0] == 'streams':
+        acc = Acc()
+        _, fi, kind = unit
+        name, data = stream_files()[fi]
+        recs0, exc0, _ = run(data, None)
+        ref = [rec_core(r) for r in recs0]
+        for pad in PADS:
+            viols = check_stream_case(name, data, pad, kind, ref)
+            acc.evals += 1
+            acc.states += 1
+            acc.transitions += 1
+            acc.validated += 1
+            acc.nontrivial += 1
+            for key, msg in viols:
+                acc.violation(key, msg, {'kind': 'stream', 'file': fi,
+                                         'pad': pad, 'stream': kind})
+            acc.outcome('ok' if not viols else 'violation')
+        acc.sample({'file': name, 'stream_kind': kind}, 1)
+        return acc
     fi, blocks = unit
     name, data = base_files()[fi]
     acc = Acc()
@@ -437,6 +543,12 @@ def run_unit(unit, tier):
 
 
 def replay(payload):
+    if payload.get('kind') == 'stream':
+        name, data = stream_files()[payload['file']]
+        recs0, exc0, _ = run(data, None)
+        ref = [rec_core(r) for r in recs0]
+        return [{'key': k, 'msg': m} for k, m in check_stream_case(
+            name, data, payload['pad'], payload['stream'], ref)]
     if payload.get('kind') == 'scale':
         data = dict(scale_cases())[payload['label']]
         return [{'key': k, 'msg': m} for k, m in check_scale_case(
